@@ -66,6 +66,7 @@ def cfg_text(c, emit=True, invs=INVS, prop=True):
 
 
 EXEMPT = [[], ["ip", "mac"], ["hostname", "keyword", "password"]]
+EXEMPT4 = EXEMPT + [["hostname", "ip", "mac", "password"]]      # all but one (the machine-id spec minus ipv6)
 CONFIGS = {
     # C08 ---------------------------------------------------------------------------------
     # every kind x every pair of delimiter classes x every switch vector, one token
@@ -73,7 +74,7 @@ CONFIGS = {
     # every configuration dimension and per-spec exemption, delimited tokens
     "switch1": dict(dels=["edge", "punct"], obf=[True, False], host=[True, False], mac=[True, False],
                     kws=[[], [1]], pats=[[], [1]], regex=[False, True], sysdom=[True, False],
-                    nored=[False, True], noobf=EXEMPT),
+                    nored=[False, True], noobf=EXEMPT4),
     # two tokens on one line (repeats, mixed kinds, prefix addresses), plain and regex patterns
     "pair": dict(dels=["space", "punct"], tok=2, nip=2, pats=[[], [1]], regex=[False, True],
                  fam=["plain", "prefix"]),
@@ -132,9 +133,9 @@ CONFIGS = {
 
 PLAN = {
     "C08": dict(quick=dict(emit=["tok1", "switch1", "pair", "pats3", "pairx", "pairc", "pairw"], model=["orders"], cap=8000, nconc=3,
-                           paths=["content"]),
+                           paths=["content", "specprovider", "provider"]),
                 thorough=dict(emit=["tok1", "switch1", "pair", "pats3", "pairx", "pairc", "pairw", "triple", "triplep"], model=["orders"],
-                              cap=45000, nconc=6, paths=["content", "content", "file", "provider", "fileprovider"])),
+                              cap=45000, nconc=6, paths=["content", "content", "file", "provider", "fileprovider", "specprovider"])),
     "C09": dict(quick=dict(emit=["hist2", "hist2x", "histw"], model=[], cap=8000, nconc=2, paths=["content"], long=80),
                 thorough=dict(emit=["hist2", "hist2x", "histw", "hist3ip", "hist3host", "hist3mac"], model=[], cap=50000, long=600,
                               nconc=3, paths=["content", "content", "provider", "file"])),
